@@ -211,6 +211,50 @@ class Gen:
         self.bounds[name] = (lo, hi)
         return {"call": "set_bounds", "name": name, "lo": lo, "hi": hi}
 
+    def tracer(self):
+        """An interpolated path that is valid from wherever the builder is (request built at call time)."""
+        r = self.r
+        shape = r.choice(["arc", "arc", "circle", "helix", "spiral", "thread", "spline", "polyline", "arc_radius"])
+        ang = r.uniform(0, 6.28)
+        rad = r.uniform(1.5, 6.0)
+        a = {"c": [rad * math.cos(ang), rad * math.sin(ang)], "sweep": r.choice([-1, 1]) * r.uniform(0.4, 5.5),
+             "dz": r.choice([0.0, 0.0, r.uniform(-2, 2)]), "dr": r.uniform(-1, 2), "turns": r.choice([1, 1, 2]),
+             "t": [r.uniform(2, 6) * r.choice([-1, 1]), r.uniform(2, 6) * r.choice([-1, 1])], "pitch": r.choice([0.5, 1.0]),
+             "radius": r.choice([-1, 1]) * 6.5,
+             "offs": [[r.uniform(-4, 4), r.uniform(-4, 4), r.choice([0.0, r.uniform(-1, 1)])] for _ in range(r.randint(2, 4))]}
+        if shape == "thread" and a["dz"] == 0.0:
+            a["dz"] = 1.5
+        return {"call": "trace", "shape": shape, "auto": a}
+
+    def extrusion(self):
+        r = self.r
+        x = r.random()
+        if not getattr(self, "ext", False) or x < 0.05:
+            self.ext = True
+            lh, nd, fd = r.choice([(0.2, 0.4, 1.75), (0.3, 0.6, 2.85), (0.1, 0.25, 1.75), (0.25, 0.8, 2.85)])
+            return {"call": "add_extrusion_hook", "lh": lh, "nd": nd, "fd": fd}
+        if x < 0.12:
+            return {"call": "set_extrusion_mode", "mode": r.choice(["absolute", "relative"])}
+        if x < 0.2:
+            return {"call": "set_axis", "ax": [None, None, None], "E": r.choice([0.0, 0.0, 5.0])}
+        if x < 0.27:
+            return {"call": "set_distance_mode", "mode": r.choice(["absolute", "relative"])}
+        if x < 0.32:
+            return {"call": "rapid", "ax": [self.num(0, 15), self.num(0, 15), None]}
+        if x < 0.45:
+            return self.tracer()
+        if x < 0.48:
+            self.ext = False
+            return {"call": "remove_extrusion_hook"}
+        c = r.choice(["move", "move", "move", "move_absolute"])
+        ax = [None, None, None]
+        for i in r.sample(range(3), r.choice([1, 2, 2, 3])):
+            ax[i] = self.num(-7, 7) if c == "move" and r.random() < 0.5 else self.num(0, 15)
+        d = {"call": c, "ax": ax}
+        if r.random() < 0.2:
+            d["F"] = 1200.0
+        return d
+
     def hooks(self):
         r = self.r
         if not self.hook or r.random() < 0.2:
@@ -226,6 +270,8 @@ class Gen:
         p = self.profile
         x = r.random()
         if p == "motion":
+            if not self.exact and x < 0.12:
+                return self.tracer()
             return self.motion() if x < 0.9 else (self.set_bounds() if x < 0.92 else self.modal())
         if p == "interlock":
             return self.interlock() if x < 0.7 else (self.motion() if x < 0.85 else (self.set_bounds() if x < 0.9 else self.modal()))
@@ -234,7 +280,11 @@ class Gen:
                 return self.set_bounds()
             return self.motion() if x < 0.6 else (self.interlock() if x < 0.8 else self.modal())
         if p == "hooks":
+            if not self.exact and x < 0.15:      # interpolated vertices are not on the exact grid
+                return self.tracer()
             return self.hooks() if x < 0.85 else self.modal()
+        if p == "extrusion":
+            return self.extrusion()
         # mixed
         if x < 0.06:
             return self.set_bounds()
